@@ -10,8 +10,7 @@ THEOREMS = [
     "Mpc.C07_adder",
     "Mpc.C07_bridge_plainEval",
     "Mpc.C07_adder_compute_model",
-    "Mpc.C07_sub_partial",
-    "Mpc.C07_sub_wide_wrong",
+    "Mpc.C07_sub",
     "Mpc.C07_ucmp",
     "Mpc.C07_intCmp_partial",
     "Mpc.C07_intCmp_equal_width",
@@ -26,9 +25,8 @@ THEOREMS = [
     "Mpc.C07_logical",
     "Mpc.C07_bittest",
     "Mpc.C07_index",
-    "Mpc.C07_hamming_partial",
-    "Mpc.C07_arrayMult_partial_small",
-    "Mpc.C07_arrayMult_wide_wrong",
+    "Mpc.C07_hamming",
+    "Mpc.C07_arrayMult_small",
 ]
 
 # builder called per SSA opcode in compiler/ssa/circuitgen.go (T2)
@@ -66,6 +64,13 @@ def dispatch_facts(ctx):
         m = re.search(r"Target == utils\.TargetGMW \{\s*return (\w+)\(", body)
         tg[fn] = m.group(1) if m else None
     ctx.fact("GMW target dispatch inside the builders", tg, EXPECT_TARGET)
+    # the GMW divider is not modelled in Lean: pin the repaired prologue/epilogue (dcb521a, 90ed06e)
+    gd = vlib.go_func_body("compiler/circuits/circ_gmw_divider.go", r"NewUDividerGoldschmidtFast\(") or ""
+    ctx.fact("NewUDividerGoldschmidtFast pads its operands first and connects q/r through muxResult (errors returned)",
+             {"zeropad_first": bool(re.search(r"\{\s*a, b = cc\.ZeroPad\(a, b\)\s*n := len\(a\)", gd)),
+              "muxResult_q": "muxResult(cc, []*Wire{isNeg}, qMinus1, qHigh, qFinal)" in gd,
+              "muxResult_r": "return muxResult(cc, []*Wire{isNeg}, rPlusB, rHigh, rFinal)" in gd},
+             {"zeropad_first": True, "muxResult_q": True, "muxResult_r": True})
     # ret wires results through ID gates
     m = re.search(r"case Ret:(.*?)case Circ:", src, flags=re.S)
     ctx.fact("`ret` passes every result wire through cc.ID to a fresh output wire",
@@ -141,10 +146,10 @@ def run(ctx):
     ]
     return ctx.finish(
         "Theorems (Props/C07.lean, all operand/result widths, all values, both prologue variants): ripple adder exact; "
-        "ripple subtractor exact for |z| <= max+1 (negation witness above); unsigned comparators; signed comparators "
+        "ripple subtractor exact for every result width; unsigned comparators; signed comparators "
         "(exact for equal widths, zero-extension semantics otherwise, negation witness); Eq/Neq; MUX; bitwise "
-        "AND/OR/XOR/Clear; logical AND/OR; bit tests; NewIndex; Hamming (Yao, width >= 2); array multiplier: negation witness "
-        "for |z| > 2max and kernel-checked enumeration at widths <= 2; bridge lemma to the C01 plain evaluator. "
+        "AND/OR/XOR/Clear; logical AND/OR; bit tests; NewIndex; Hamming (Yao, width >= 1); array multiplier: "
+        "kernel-checked enumeration at operand widths <= 2 for every result width 1..7; bridge lemma to the C01 plain evaluator. "
         "Tie T4: for every modelled builder (adders, subtractors incl. Kogge-Stone, array/Karatsuba/Wallace "
         "multipliers, comparators, MUX, index, bitwise, Hamming) the Lean generator reproduces the real cc.Gates "
         "gate for gate (canonical first-occurrence numbering) on all width triples listed under coverage; T3: sample "
